@@ -40,10 +40,25 @@ func (g *Gen) Rand() *rand.Rand {
 
 // Run executes an input segment on the real code and records it. gen names the generator (for the evidence).
 func (g *Gen) Run(gen string, seg []Ev) {
+	prev := heldAcross
+	heldAcross = nil
+	holdBudget = 3
 	out, crash := safeExec(g.p, seg)
 	if crash != "" {
 		g.w.crash(seg, crash)
 		return
+	}
+	// what the previous segment handed out / kept alive, looked at again now that this segment's instances were created and used
+	if _, own := out0(out)["held_what"]; len(out) > 0 && !own {
+		for _, h := range prev {
+			if now := h.render(); now != h.then {
+				out[0]["held_what"], out[0]["held_then"], out[0]["held_now"] = h.what, short(h.then), short(now)
+				break
+			}
+		}
+		if _, bad := out[0]["held_what"]; !bad && len(prev) > 0 {
+			out[0]["held_what"], out[0]["held_then"], out[0]["held_now"] = prev[0].what, short(prev[0].then), short(prev[0].then)
+		}
 	}
 	if len(out) == 0 {
 		g.w.extra["not_executed_after_hangs"] = toInt(orZero(g.w.extra["not_executed_after_hangs"])) + 1
@@ -51,6 +66,78 @@ func (g *Gen) Run(gen string, seg []Ev) {
 	}
 	g.w.gens[gen]++
 	g.w.Put(out)
+}
+
+func out0(out []Ev) Ev {
+	if len(out) == 0 {
+		return Ev{}
+	}
+	return out[0]
+}
+
+// ---- held observations (spec/Held.tla) ----
+// hold registers something the current segment produced or keeps alive; it is rendered again after the NEXT segment has
+// run (other instances created, configured, used) and both renderings go into that segment's first event.
+type heldObs struct {
+	what, then string
+	now        func() string
+}
+
+func (h heldObs) render() (s string) {
+	defer func() {
+		if r := recover(); r != nil {
+			s = "panic: " + fmt.Sprint(r)
+		}
+	}()
+	return h.now()
+}
+
+var heldAcross []heldObs
+var holdBudget = 3
+
+func hold(what string, now func() string) {
+	if holdBudget <= 0 {
+		return
+	}
+	holdBudget--
+	h := heldObs{what: what, now: now}
+	h.then = h.render()
+	heldAcross = append(heldAcross, h)
+}
+
+// short: a rendering cut to a readable length plus a digest of the whole
+func short(s string) string {
+	if len(s) <= 160 {
+		return s
+	}
+	sum := sha1.Sum([]byte(s))
+	return s[:120] + "...#" + hex.EncodeToString(sum[:6])
+}
+
+// keeper: the same within one segment - results of earlier steps checked at every later step
+type keeper struct{ items []heldObs }
+
+func (k *keeper) keep(what string, now func() string) {
+	if len(k.items) >= 6 {
+		k.items = k.items[1:]
+	}
+	h := heldObs{what: what, now: now}
+	h.then = h.render()
+	k.items = append(k.items, h)
+}
+
+// check writes the first changed item (or the first item, unchanged) into e
+func (k *keeper) check(e Ev) {
+	if len(k.items) == 0 {
+		return
+	}
+	for _, h := range k.items {
+		if now := h.render(); now != h.then {
+			e["held_what"], e["held_then"], e["held_now"] = h.what, short(h.then), short(now)
+			return
+		}
+	}
+	e["held_what"], e["held_then"], e["held_now"] = k.items[0].what, short(k.items[0].then), short(k.items[0].then)
 }
 
 // Pick returns quick or thorough value.
@@ -368,6 +455,13 @@ func allStrings(alphabet []rune, maxLen int, f func([]rune)) {
 		}
 	}
 	rec(nil)
+}
+
+func orFalse(v any) any {
+	if v == nil {
+		return false
+	}
+	return v
 }
 
 func orZero(v any) any {
